@@ -3,6 +3,7 @@ import BufProofs.Lemmas.BucketLemmas
 import BufProofs.Props.C13
 import BufProofs.Lemmas.DiskLemmas
 import BufProofs.Lemmas.ArchiveLemmas
+import BufProofs.Lemmas.ReaderLemmas
 /-
   C14 — All bucket implementations and combinators behave as one path→bytes map.
 
@@ -20,7 +21,13 @@ import BufProofs.Lemmas.ArchiveLemmas
   * what the correspondence driver executes for disk-backed composites (`rWalkD`, `copyD`) is
     tied to `rWalk`/`rCopy` by `walkD_all_memory_is_walk`, `walkD_ok_is_walk`,
     `copyD_refines_copy`.
-  Pure helper lemmas live in Lemmas/BucketLemmas.lean, ArchiveLemmas.lean, DiskLemmas.lean.
+  * reader handles (BufModel/Reader.lean): `read_after_overwrite_is_snapshot` (a memory reader yields
+    the content at Get time whatever is written later), `disk_reader_after_rename_or_unlink_is_snapshot`,
+    `disk_reader_after_plain_put_reads_new_content` (disk, as coded = POSIX open-file semantics);
+  * repeated / colliding archive members: `extract_last_member_wins`,
+    `untar_duplicate_member_last_wins`, `first_member_wins_counterexample`.
+  Pure helper lemmas live in Lemmas/BucketLemmas.lean, ArchiveLemmas.lean, DiskLemmas.lean,
+  ReaderLemmas.lean.
 -/
 namespace BufProofs.C14
 open BufModel.Path BufModel.Bucket BufModel.Archive
@@ -929,5 +936,143 @@ example : (diskBeginAtomic { files := [("a/x".toList, "OLD")], dirs := [["a".toL
 open BufModel.Disk in
 example : (diskCommitAtomic { files := [("a/.tmpx123".toList, "NEW"), ("a/x".toList, "OLD")], dirs := [["a".toList]] }
       "a/x".toList (some ".tmpx123".toList) "NEW").1.files = [("a/x".toList, "NEW")] := by decide
+
+section Round6
+open BufModel.Disk BufModel.Reader
+
+/-! ### Reader isolation (round 6) -/
+
+/-- **A memory reader is a snapshot.**  A reader opened on a memory bucket (`Get`, then `n` bytes
+    read) yields, when it is read to the end after ANY sequence of later writes — overwrites of
+    the same path, deletes, DeleteAll, puts anywhere, on any base, whatever the trees look like by
+    then (`dNow` arbitrary) — exactly the rest of the content the object had at Get time: the
+    bytes read before and after are together the old content. -/
+theorem read_after_overwrite_is_snapshot (d : Disk) (i : Nat) (path : Str) (n : Nat) (h : Handle)
+    (got c : Content) (hget : memGet d.files path = .ok c)
+    (hopen : openReader false d i path n = .ok (h, got))
+    (ws : List (Disk × Nat × Write)) (dNow : Disk) :
+    afterWrites ws [h] = [h] ∧
+    finishReader dNow h = dropC c h.off ∧
+    got.toList ++ (finishReader dNow h).toList = c.toList := by
+  cases hv : validatePath path with
+  | error e => simp only [memGet, hv] at hget; cases hget
+  | ok p =>
+    simp only [memGet, hv] at hget
+    simp only [openReader, hv] at hopen
+    cases hf : d.files.find p with
+    | none => simp only [hf] at hget; cases hget
+    | some c' =>
+      simp only [hf] at hget hopen
+      have hc : c' = c := by injection hget
+      subst hc
+      simp only [Bool.false_eq_true, if_false] at hopen
+      have hpair := Except.ok.inj hopen
+      have hh : h = { base := i, path := p, off := min n c'.toList.length, snap := some c' } :=
+        (congrArg Prod.fst hpair).symm
+      have hg : got = takeC c' n := (congrArg Prod.snd hpair).symm
+      have hsnap : h.snap = some c' := by rw [hh]
+      refine ⟨afterWrites_snapshot ws h c' hsnap, ?_, ?_⟩
+      · simp only [finishReader, hsnap]
+      · simp only [finishReader, hsnap, hg, takeC, dropC, String.toList_ofList]
+        rw [hh]
+        exact take_append_drop_min c'.toList n
+
+/-- Disk, as coded (POSIX): after the file is replaced by rename (atomic put), unlinked (Delete)
+    or removed with its directory (DeleteAll) the open reader stays on the old inode — from then
+    on it is a snapshot of the content the file had at that moment, whatever is written later
+    (also a new file at the same path). -/
+theorem disk_reader_after_rename_or_unlink_is_snapshot (d : Disk) (i : Nat) (w : Write) (h : Handle)
+    (c : Content) (hb : h.base = i) (hatt : h.snap = none) (hsel : w.sel h.path = true)
+    (hc : d.files.find h.path = some c) (ws : List (Disk × Nat × Write)) (dNow : Disk) :
+    ∃ h', afterWrites ((d, i, w) :: ws) [h] = [h'] ∧ finishReader dNow h' = dropC c h.off := by
+  refine ⟨{ h with snap := some c }, ?_, ?_⟩
+  · have h1 : afterWrite d i w [h] = [{ h with snap := some c }] := by
+      simp [afterWrite, detach, hb, hatt, hsel, hc]
+    simp only [afterWrites, h1]
+    exact afterWrites_snapshot ws _ c rfl
+  · simp [finishReader]
+
+/-- Disk, as coded (POSIX): a NON-atomic put truncates and rewrites the same inode, so a reader
+    that is still attached continues at its offset in whatever the file holds NOW. -/
+theorem disk_reader_after_plain_put_reads_new_content (d : Disk) (i : Nat) (path : Str) (h : Handle)
+    (hatt : h.snap = none) (dNow : Disk) (cNew : Content) (hnew : dNow.files.find h.path = some cNew) :
+    afterWrite d i (.putPlain path) [h] = [h] ∧ finishReader dNow h = dropC cNew h.off := by
+  constructor
+  · simp [afterWrite, detach, Write.sel]
+  · simp [finishReader, hatt, hnew]
+
+-- non-vacuity: open on "a/x" = "old-content", read 3 bytes, overwrite, finish
+example : (openReader false { files := [("a/x".toList, "old-content")], dirs := [] } 0 "a/x".toList 3).map
+    (fun hg => (hg.2, finishReader { files := [("a/x".toList, "NEW")], dirs := [] } hg.1)) = .ok ("old", "-content") := by
+  decide
+example : (openReader true { files := [("a/x".toList, "old-content")], dirs := [] } 0 "a/x".toList 3).map
+    (fun hg => (hg.2, finishReader { files := [("a/x".toList, "NEWNEWNEW")], dirs := [] } hg.1)) = .ok ("old", "NEWNEW") := by
+  decide
+
+/-! ### Duplicate archive members (round 6) -/
+
+/-- **The later member wins.**  After a successful extraction (tar or zip, any strip-components,
+    matcher, size limit, into a bucket `m0` holding anything) every path holds the content of the
+    LAST member written to it — repeated member names and members that collide only after
+    strip-components / normalisation alike — and what `m0` held where no member is written. -/
+theorem extract_last_member_wins (fmt : Fmt) (strip : Nat) (matcher : Str → Bool) (mx : Nat)
+    (a : Archive) (m0 m' : Mem) (h : extractInto fmt strip matcher mx a m0 = (none, m')) (q : Str) :
+    m'.find q = match lastMember fmt strip matcher q a with
+      | some c => some c
+      | none => m0.find q := by
+  induction a generalizing m0 with
+  | nil =>
+    simp only [extractInto] at h
+    have : m' = m0 := (congrArg Prod.snd h).symm
+    subst this
+    simp [lastMember]
+  | cons e rest ih =>
+    simp only [extractInto] at h
+    cases he : extractEntry fmt strip matcher mx m0 e with
+    | error er => rw [he] at h; simp at h
+    | ok m1 =>
+      rw [he] at h
+      have ih' := ih m1 h
+      rw [ih']
+      simp only [lastMember]
+      cases hl : lastMember fmt strip matcher q rest with
+      | some c => rfl
+      | none =>
+        simp only
+        rcases extractEntry_target fmt strip matcher mx m0 m1 e he with ⟨ht, hm⟩ | ⟨p, ht, hm⟩
+        · rw [ht, hm]; simp
+        · rw [ht, hm, find_put_erase]
+          by_cases hpq : p = q
+          · subst hpq; simp
+          · have : ¬ (some p = some q) := fun hh => hpq (Option.some.inj hh)
+            simp [hpq, this]
+
+/-- The clause as the duplicate-member oracle states it: a member `e2` written to `q` after which
+    no other member is written to `q` determines the content, however many earlier members
+    (`before`, arbitrary) were written there. -/
+theorem untar_duplicate_member_last_wins (fmt : Fmt) (strip : Nat) (matcher : Str → Bool) (mx : Nat)
+    (before after : Archive) (e2 : Entry) (m0 m' : Mem) (q : Str)
+    (h : extractInto fmt strip matcher mx (before ++ e2 :: after) m0 = (none, m'))
+    (h2 : entryTarget fmt strip matcher e2 = some q)
+    (hafter : ∀ e ∈ after, entryTarget fmt strip matcher e ≠ some q) :
+    m'.find q = some e2.content := by
+  rw [extract_last_member_wins fmt strip matcher mx _ m0 m' h q, lastMember_append]
+  simp [lastMember, lastMember_none_of_no_target fmt strip matcher q after hafter, h2]
+
+/-- "first member wins" (seed C11-m10) is NOT what the extraction does: `a/x` twice. -/
+theorem first_member_wins_counterexample :
+    (extractInto .tar 0 (fun _ => true) 0
+      [{ name := "a/x".toList, content := "v1", kind := .reg }, { name := "a/x".toList, content := "v2", kind := .reg }] []).2.find "a/x".toList
+      = some "v2" := by decide
+
+-- non-vacuity: members colliding only after strip-components 1 and normalisation, into a bucket
+-- that already holds the path
+example : extractInto .zip 1 (fun _ => true) 0
+    [{ name := "top/a/x".toList, content := "v1", kind := .reg },
+     { name := "other//a/./x".toList, content := "v2", kind := .reg },
+     { name := "top/a/x".toList, content := "", kind := .other }] [("a/x".toList, "OLD")]
+    = (none, [("a/x".toList, "v2")]) := by decide
+
+end Round6
 
 end BufProofs.C14
